@@ -180,8 +180,9 @@ CLAIMED.update({
             "(2 pages in the quick tier, 3 entries over 2 pages in the thorough tier); _create_tag is proved for all symbol-type / software-control "
             "bits on 0-3 dimensions; user-tag isolation is checked on a catalogue of symbol-name kinds against spec.user_visible; fragmented template "
             "reads reassemble for all chunk sizes with the right offsets and remaining sizes; tags_json is JSON-typed on the representative database. "
-            "NOT covered: _parse_template_data / member-info parsing of arbitrary templates (string splitting on NUL-separated names is outside the "
-            "engine; only indirectly through the representative database)",
+            "_parse_template_data / member-info parsing is proved on two representative templates (a UDT with a packed BOOL and its hidden host "
+            "member, and a LEN/DATA string type) for all offsets, array lengths, bit numbers and sizes; NOT covered: arbitrary member-name lists, "
+            "nested template fetches (_get_data_type recursion)",
             "contracts against the documented reply layouts (pyvc + z3)", "DESIGN.md 3 (C05), 9"),
     "C10": ("proof", "typestate contracts: open, a connected operation from 'session only', close from every state of the driver invariant, "
             "__enter__ / __exit__ are each proved -- under every target policy (session granted / refused, large Forward Open accepted / refused, "
